@@ -74,6 +74,28 @@ def ents_line(fmt, name, datas):
     return " ".join(toks)
 
 
+def xml_root(data):
+    """well-formedness and the root element of an XML document, read with expat directly (no minidom, no
+    compare-locales code): {"wellformed": bool, "root": name, "attrs": [[name, value], ...] in document order}.
+    expat rejects an element that carries the same attribute twice ("duplicate attribute")."""
+    from xml.parsers import expat
+    p = expat.ParserCreate()            # no namespace processing: raw attribute names (xmlns:tools, tools:ignore)
+    p.ordered_attributes = True
+    seen = []
+
+    def start(name, attrs):
+        if not seen:
+            seen.append([name, [[attrs[i], attrs[i + 1]] for i in range(0, len(attrs), 2)]])
+    p.StartElementHandler = start
+    try:
+        p.Parse(data, True)
+    except expat.ExpatError as e:
+        return {"wellformed": False, "err": str(e)[:100]}
+    if not seen:
+        return {"wellformed": False, "err": "no root element"}
+    return {"wellformed": True, "root": seen[0][0], "attrs": seen[0][1]}
+
+
 def impl_merge(fmt, name, texts, want_ents=True, want_versions=True):
     """merge_channels(name, [bytes]) plus everything the oracle needs"""
     from compare_locales.merge import merge_channels, MergeNotSupportedError
@@ -95,6 +117,8 @@ def impl_merge(fmt, name, texts, want_ents=True, want_versions=True):
     res["canon"] = "ok " + enc(text)
     res["text"] = text
     res["reparse"] = describe(fmt, name, out)
+    if fmt == "android":
+        res["xml"] = xml_root(out)
     if want_versions:
         res["versions"] = [describe(fmt, name, d) for d in datas]
     if want_ents:
